@@ -84,6 +84,18 @@ CHECKS = {
         "Observes nodes through public attributes only. Sampled over the core grammar; node classes outside it are reached only through dialect-specific parsing of core statements.",
         "DESIGN.md §C12",
     ),
+    "C14": (
+        "property-based testing (Hypothesis scripts of valid/mutated statements x dialects x max_errors; trees x dialect pairs x max_unsupported) with a four-run relational oracle over return values, exceptions and captured 'sqlglot' logger records",
+        "Each input is processed under IGNORE, WARN, RAISE and IMMEDIATE by separate Parser/Generator objects; the relation of the property (who raises when, what the message contains, equality of trees/texts, error_level restored) is checked against the records WARN logged.",
+        "A TokenError is outside the parser's domain; leaked internal exceptions are C05's subject and make the relation undefined for that input (skipped). Unsupported-message paths are driven by a measured list of constructs.",
+        "DESIGN.md §C14",
+    ),
+    "C15": (
+        "property-based testing (Hypothesis-drawn workloads) with a metamorphic oracle across subprocess configurations: PYTHONHASHSEED x processing order x fresh vs reused Parser/Generator/Tokenizer/MappingSchema x pollution calls",
+        "Every workload (parse, transpile, pretty, tokenize, simplify, optimize, qualify, annotate, lineage triples) runs in four fresh interpreters; each triple's output must be byte-identical to the baseline configuration. Failing workloads are reduced by delta debugging over their items.",
+        "Compares rendered outputs (SQL text, repr of parsed trees, type strings, lineage leaves, error class+message). AST diff is excluded as the property says. Sampled configurations, not all orders.",
+        "DESIGN.md §C15",
+    ),
     "C20": (
         "property-based testing (Hypothesis source trees x generated edit scripts / independent trees x true-correspondence matchings) with an accounting oracle over the edit script",
         "Every non-Identifier node of source/target must be accounted exactly once (Remove|Keep|Update source side; Insert|Keep|Update target side), paired nodes share a class, no foreign nodes, delta_only == full minus Keep, "
